@@ -15,6 +15,7 @@ LEVEL = 'exploration'
 
 ALPHABET = ['a', 'b', '%', '_', '.', '*', '\\', '[', '(', '^', '$', '+', '?', '|']
 SPECIAL = set(ALPHABET) - {'a', 'b'}
+NEWLINE_ALPHABET = ['a', '%', '_', '\n', '\r', '\u2028', '\x85']
 EXTRA_META = [')', ']', '{', '}', '-', '#', ' ', '&', '~', '/', "'", '"']
 
 PAT_LEN = {'quick': 3, 'thorough': 4}
@@ -30,6 +31,7 @@ def plan(tier, seed):
     specs = [{'kind': 'py-exh', 'k': k, 'i': i} for i in range(k)]
     specs += [{'kind': 'js-exh', 'k': 8, 'i': i} for i in range(8)]
     specs += [{'kind': 'random', 'i': i, 'n': RANDOM_PAIRS[tier] // 8} for i in range(8)]
+    specs += [{'kind': 'newlines', 'engine': e} for e in ('py', 'js')]
     if tier == 'thorough':
         specs += [{'kind': 'derived', 'k': 32, 'i': i} for i in range(32)]
     return specs
@@ -89,7 +91,9 @@ def utf16_units(s):
 def rand_char(rng, bmp_only):
     while True:
         r = rng.random()
-        if r < 0.35:
+        if r < 0.04:
+            c = rng.choice(['\n', '\r', '\u2028', '\u2029', '\x85', '\x0b', '\x0c', '\x1c', '\t'])
+        elif r < 0.35:
             c = rng.choice(ALPHABET + EXTRA_META)
         elif r < 0.6:
             c = chr(rng.randrange(0x20, 0x7f))
@@ -99,8 +103,6 @@ def rand_char(rng, bmp_only):
             c = chr(rng.randrange(0x3000, 0xd800))
         else:
             c = chr(rng.randrange(0x10000, 0x20000))
-        if c in '\n\r\x85  \x0b\x0c\x1c\x1d\x1e':
-            continue
         return c
 
 
@@ -202,6 +204,29 @@ def run_shard(spec, res):
                 res.violation('js-async-noise', 'unhandled rejection / warning in node: %r' % noise[:3], {'engine': 'js', 'noise': noise[:3]})
         finally:
             node.close()
+    elif kind == 'newlines':
+        # line breaks are characters like any other (multi-line cells come from quoted_rfc files, lists, dataframes): exhaustive small leg
+        texts = [''.join(t) for t in enum.words(NEWLINE_ALPHABET, 3)]
+        pats = [''.join(t) for t in enum.words(NEWLINE_ALPHABET, 3 if tier == 'quick' else 4)]
+        res.distinct_disjoint += len(texts) * len(pats)
+        if spec['engine'] == 'py':
+            batch = [[t, p] for p in pats for t in texts]
+            for off in range(0, len(batch), 50000):
+                run_pairs_py(ns, res, batch[off:off + 50000], where=(off // 50000) % 3 == 2, tag='newlines')
+            res.count('py_newline_pairs', len(batch))
+        else:
+            from ..js import bridge
+            node = bridge.Node.start()
+            if node is None:
+                res.notes.append('js_leg: unavailable (no node)')
+                return
+            try:
+                step = max(1, 60000 // len(texts))
+                for off in range(0, len(pats), step):
+                    run_cross_js(node, res, texts, pats[off:off + step], where=(off // step) % 3 == 2, tag='newlines')
+                res.count('js_newline_pairs', len(texts) * len(pats))
+            finally:
+                node.close()
     elif kind == 'random':
         pairs = [random_pair(rng, False) for _ in range(spec['n'])]
         for pr in pairs:
@@ -257,7 +282,7 @@ def summarize(tier, seed, m):
             PAT_LEN[tier], TXT_LEN[tier], ''.join(ALPHABET), JS_PAT_LEN[tier], JS_TXT_LEN[tier], RANDOM_PAIRS[tier],
             '; every length-5 pattern containing a wildcard (and 1/7 of the others) against texts derived from it (wildcard instantiations and their single-symbol edits)' if tier == 'thorough' else ''),
         'exhaustive': True,
-        'required': ['py_exhaustive_pairs', 'py_random_pairs'],
+        'required': ['py_exhaustive_pairs', 'py_random_pairs', 'py_newline_pairs'],
         'assumptions': ['rv.model.refcsv.like is SQL LIKE', 'single-line texts only (no LF, CR, NEL, LS, PS), as quantified'],
     }
 
